@@ -508,9 +508,66 @@ func (index *PatternIndex) searchPairs(ctx *Context, pairs []piPair) (StringSet,
 	return ids, nil
 }
 
+// indexable returns the given pattern or event with its numbers the
+// way the index (and the matcher, see 'cast') wants them: as
+// float64s.  A pattern or an event that was made in Go or by a script
+// arrives with integers (otto exports an integral value as an int64);
+// the index would refuse an array of them or would file them where a
+// search for the same JSON never looks.
+//
+// The given map isn't modified.  Typed slices are left alone (and
+// refused later).
+func indexable(m map[string]interface{}) map[string]interface{} {
+	n, _ := indexableValue(m).(map[string]interface{})
+	return n
+}
+
+func indexableValue(x interface{}) interface{} {
+	if m, is := x.(Map); is {
+		x = map[string]interface{}(m)
+	}
+	switch v := x.(type) {
+	case map[string]interface{}:
+		n := make(map[string]interface{}, len(v))
+		for k, y := range v {
+			n[k] = indexableValue(y)
+		}
+		return n
+	case []interface{}:
+		n := make([]interface{}, len(v))
+		for i, y := range v {
+			n[i] = indexableValue(y)
+		}
+		return n
+	case int:
+		return float64(v)
+	case int8:
+		return float64(v)
+	case int16:
+		return float64(v)
+	case int32:
+		return float64(v)
+	case int64:
+		return float64(v)
+	case uint:
+		return float64(v)
+	case uint8:
+		return float64(v)
+	case uint16:
+		return float64(v)
+	case uint32:
+		return float64(v)
+	case uint64:
+		return float64(v)
+	case float32:
+		return float64(v)
+	}
+	return x
+}
+
 // SearchPatternsMap searchs the index for patterns that match the given fact (or event).
 func (index *PatternIndex) SearchPatternsMap(ctx *Context, fact map[string]interface{}) (StringSet, error) {
-	ids, err := index.searchPairs(ctx, mapToPairs(ctx, fact))
+	ids, err := index.searchPairs(ctx, mapToPairs(ctx, indexable(fact)))
 	if err != nil {
 		return nil, err
 	}
@@ -522,12 +579,12 @@ func (index *PatternIndex) SearchPatternsMap(ctx *Context, fact map[string]inter
 
 // AddPatternJSON adds the given pattern (as a map) to the index.
 func (index *PatternIndex) AddPatternMap(ctx *Context, m map[string]interface{}, id string) error {
-	return index.add(ctx, mapToPairs(ctx, m), id)
+	return index.add(ctx, mapToPairs(ctx, indexable(m)), id)
 }
 
 // RemPatternMap removes the given pattern from the index.
 func (index *PatternIndex) RemPatternMap(ctx *Context, m map[string]interface{}, id string) error {
-	return index.rem(ctx, mapToPairs(ctx, m), id)
+	return index.rem(ctx, mapToPairs(ctx, indexable(m)), id)
 }
 
 // Show prints the index to stdout in a readable way.
